@@ -165,6 +165,7 @@ func VerifServeReads(s *Server) error {
 		return err
 	}
 	s.ACLResolver = r
+	s.config.ConnectEnabled = true // intention and CA read endpoints refuse to answer otherwise
 	if s.shutdownCh == nil {
 		s.shutdownCh = make(chan struct{})
 	}
